@@ -288,6 +288,18 @@ def gen(rng, n_each):
         i = rng.randint(0, min(int(per_month) - 1, 2000))
         cases.append({"kind": "hodf", "h": rng.randint(0, 23), "m": rng.choice([0, 0, 0, 30]), "step": [str(step), su],
                       "unit": rng.choice([1, 2, 3, 4, 5]), "i": i})
+    for _ in range(n_each):
+        # float runs that land exactly on a whole hour / on midnight although start minute and step are not binary fractions
+        # of an hour (00:40 + k x 20 min ...): the rounding guard has to act before the wrap at 24
+        smin = rng.choice([5, 10, 15, 20, 30, 60])
+        h = rng.randint(0, 23); m = rng.choice([x for x in range(0, 60, smin)])
+        D = rng.randint(1, 25)
+        target_min = (24 * D if rng.random() < 0.6 else 24 * (D - 1) + rng.randint(h + 1, 47)) * 60
+        steps = (target_min - (h * 60 + m)) // smin
+        if steps < 1:
+            continue
+        su, step = rng.choice([(2, smin), (3, Fraction(smin, 60)), (1, smin * 60)])
+        cases.append({"kind": "hodf", "h": h, "m": m, "step": [str(step), su], "unit": rng.choice([2, 3, 3, 3, 4, 4, 5]), "i": steps - 1})
     for _ in range(n_each // 2):
         a = [rng.randint(0, 3), rng.randint(0, 11), rng.randint(0, 28), rng.randint(0, 23), rng.randint(0, 59), rng.randint(0, 59)]
         b = [rng.randint(0, 3), rng.randint(0, 11), rng.randint(0, 28), rng.randint(0, 23), rng.randint(0, 59), rng.randint(0, 59)]
